@@ -38,7 +38,7 @@ def gen_vectors(ctx):
     vec, n = [], 0
     for tag, o in r.prints:
         items = [o] if tag == "VEC" else o
-        kind = {"VEC": "vec", "RT": "rt", "DEFINED": "defined"}.get(tag)
+        kind = {"VEC": "vec", "RT": "rt", "DEFINED": "defined", "TAIL": "tail"}.get(tag)
         if kind is None:
             continue
         for x in items:
@@ -117,6 +117,16 @@ def run_frames(ctx, vec, net):
     for v, r in zip(vec, res):
         if r["outcome"] == "infra":
             ctx.notes.append("frame vector %d (%s): %s" % (v["id"], net, r.get("infra")))
+            continue
+        if v["kind"] == "tail":
+            # observation only: frames beyond the read size are outside the model's one-frame-one-read-unit assumption
+            obs = {"socket": net, "first_read": r["outcome"], "second_read": r.get("second"),
+                   "second_type": r.get("secondType"), "second_len": r.get("secondLen"), "inner_type": v["inner"]["type"]}
+            ctx.cov.setdefault("stream_tail_probe", []).append(obs)
+            if r.get("second") == "accept":
+                ctx.notes.append("OBSERVATION (not judged) on %s: an oversized frame (type %d, declared = carried = %d) is rejected, and the "
+                                 "NEXT read on the same connection returns its bytes from offset %d on as a message of type %d len %d" % (
+                                     net, v["type"], v["declared"], READ_SIZE, r["secondType"], r["secondLen"]))
             continue
         key = (net, v["kind"], v["type"], v.get("hdr"), v.get("declared", v.get("len")), v.get("carried"), v.get("name"))
         ctx.case(key=key, nontrivial=not (v["kind"] == "vec" and v["cls"] == "well-formed" and v["declared"] < 4))
